@@ -34,13 +34,16 @@ def logic_setter_obligation(ctx):
             if name == 'groups': return Groups()
             raise Outside(name)
     R_ = Holder(closure=('C1', 'C2'), groups=(('a', 'b'), ('c',)))
+    LOGIC = Holder(Rules=R_)           # what registry(value) returns: the logic, with its rule table
     class T(SymVal):
         def __init__(s): s.logic_set = None
         def sym_getattr(s, it, name):
             from contracts.tableau import FlagVal
             if name == 'flag': return FlagVal({})
             if name == 'rules': return RulesM()
-            if name == 'logic': return Holder(Rules=R_)
+            if name in ('logic', '_logic'):
+                if s.logic_set is None: raise PyExc(AttributeError, (name,)) if name == '_logic' else Outside('logic read before it is set')
+                return s.logic_set
             if name == 'argument': return None
             if name == 'opts': return {'auto_build_trunk': True}
             from pyvc.interp import private_helper
@@ -51,7 +54,7 @@ def logic_setter_obligation(ctx):
     from pytableaux.logics import registry
     world = World()
     _orig_live = world.call_live
-    world.call_live = lambda it, f, args, kw: 'LOGIC' if f is registry else _orig_live(it, f, args, kw)
+    world.call_live = lambda it, f, args, kw: LOGIC if f is registry else _orig_live(it, f, args, kw)
     try:
         prs = explore(lambda path: Interp(path, world).call_source(fi, fset, Tableau, [T(), 'x'], {}))
         ok = len(prs) == 1 and prs[0].kind == 'return' and created == [('closure', ['C1', 'C2']), (None, ['a', 'b']), (None, ['c'])]
